@@ -2,6 +2,7 @@
 import ast
 from ..model import own_nodes, AnalysisError
 from ..paths import factmap, call_text, returns, must_call
+from ..defuse import closed_text
 from ..callgraph import CallGraph
 from ..fsm import Fsm
 from .c03 import rule_pickup, rule_next_when_empty, plan_before_trigger
@@ -34,10 +35,14 @@ def run(P, R):
     plan_before_trigger(P, G, R, r2, 'Stopper.stop_applications', 'self.store_application')
     u = P.unit('Stopper.store_application')
     loops = [n for n in u.node.body if isinstance(n, ast.For)]
+    # name-independent (closed forms, sa.defuse): plan[<key of the stop_sequence item>] = ... inside the loop, and the
+    # application job is filed under planned_jobs[application.rules.stop_sequence]
     ok = len(loops) == 1 and ast.unparse(loops[0].iter) == 'application.stop_sequence.items()' and \
-        any(isinstance(a, ast.Assign) and ast.unparse(a.targets[0]) == 'stop_sequence[seq]' for a in ast.walk(loops[0]))
-    pr = [a for a in own_nodes(u.node) if isinstance(a, ast.Assign) and ast.unparse(a.targets[0]) == 'priority']
-    ok = ok and len(pr) == 1 and ast.unparse(pr[0].value) == 'application.rules.stop_sequence'
+        any(isinstance(a, ast.Assign) and isinstance(a.targets[0], ast.Subscript) and
+            closed_text(u, a.targets[0].slice) == 'each(application.stop_sequence.items())[0]'
+            for a in ast.walk(loops[0]))
+    sd = [c for c in own_nodes(u.node) if isinstance(c, ast.Call) and call_text(c) == 'self.planned_jobs.setdefault']
+    ok = ok and len(sd) == 1 and closed_text(u, sd[0].args[0]) == 'application.rules.stop_sequence'
     R.check(r2, ok, 'the stop plan follows the stop_sequence of processes and of the application',
             'plan|Stopper.store_application', u.loc(), 'Stopper.store_application does not key the plan by the process '
             'stop_sequence and the application rules.stop_sequence')
@@ -58,12 +63,7 @@ def run(P, R):
     pj = P.unit('ApplicationStopJobs.process_job')
     fm = factmap(pj)
     sc = [c for c in own_nodes(pj.node) if isinstance(c, ast.Call) and call_text(c) == 'command.stop']
-    rdef = [a for a in own_nodes(pj.node) if isinstance(a, ast.Assign) and ast.unparse(a.targets[0]) == 'running']
-    ok = len(sc) == 1 and (fm.has(sc[0], 'process.running_on(command.identifier)', True) or
-                           (fm.has(sc[0], 'running', True) and len(rdef) == 1 and
-                            ast.unparse(rdef[0].value) == 'process.running_on(command.identifier)'))
-    pdef = [a for a in own_nodes(pj.node) if isinstance(a, ast.Assign) and ast.unparse(a.targets[0]) == 'process']
-    ok = ok and len(pdef) == 1 and ast.unparse(pdef[0].value) == 'command.process'
+    ok = len(sc) == 1 and ('command.process.running_on(command.identifier)', True) in fm.closed(sc[0])
     R.check(r3, ok, 'stop() only when the process runs on the targeted instance', 'stop-guard|process_job', pj.loc(),
             'ApplicationStopJobs.process_job calls command.stop() without process.running_on(command.identifier)')
     n = 0
